@@ -120,6 +120,19 @@ func (st *SplitTracker) AvailableSplits() []SourceSplitterShard {
 	return available
 }
 
+// KnownSplits are all tracked splits, assigned or not, ordered by split ID.
+func (st *SplitTracker) KnownSplits() []SourceSplitterShard {
+	st.mu.Lock()
+	defer st.mu.Unlock()
+
+	known := make([]SourceSplitterShard, 0, st.knownSplits.Size())
+	for _, split := range st.knownSplits.All() {
+		known = append(known, split)
+	}
+
+	return known
+}
+
 func (st *SplitTracker) AssignedSplits() []SourceSplitterShard {
 	st.mu.Lock()
 	defer st.mu.Unlock()
